@@ -13,7 +13,8 @@ from .. import crashsim
 LEVEL = "fault_enumeration"
 SHRINK = (40, 150.0)
 ISOLATE = False  # isolation is per configuration (the whole _config_task runs in a forked child)
-KINDS = ("reference", "die", "raise", "staging-off-named", "staging-off-unnamed", "concurrent", "ioerr", "retry", "torn")
+RAISE_TYPES = ("Exception", "KeyboardInterrupt", "Exception", "SystemExit", "Exception", "MemoryError", "Exception")
+KINDS = ("reference", "die", "raise", "staging-off-named", "staging-off-unnamed", "concurrent", "ioerr", "retry", "torn", "fsize")
 WHERE = ("boundary", "stage-edge", "interior", "anywhere", "inside-fits-writer")
 
 _REF = {}
@@ -108,10 +109,10 @@ def scn_case(ctx):
     outname = OUTNAMES[ch.draw(len(OUTNAMES), "output_name")]  # the name is the user's: not every name ends in .fits
     desc["output_name"] = outname
     po = ch.draw(8, "presentation")  # 6: verbose logging, 7: a plot hook (non-interactive backend)
-    compute_kw = {"verbose": True} if po == 6 else {"to_plot": [PLOTS[ch.draw(len(PLOTS), "plot")]]} if po == 7 else None
+    compute_kw = {"verbose": True} if po == 6 else {"to_plot": [PLOTS[ch.draw(len(PLOTS), "plot")]]} if po == 7 else {"_output_as_pathlike": True} if po in (4, 5) else None
     if compute_kw:
         desc["compute_options"] = compute_kw
-        ctx.probes["case_with_" + ("verbose_logging" if po == 6 else "plot_hook")] += 1
+        ctx.probes["case_with_" + ("verbose_logging" if po == 6 else "plot_hook" if po == 7 else "output_file_as_pathlib_Path")] += 1
     key = tuple(ch.values())
     ref = _reference(key, cfg, desc["rng_seed"], clock, outname, compute_kw)
     K = ref["K"]
@@ -156,6 +157,9 @@ def scn_case(ctx):
         return
     if kind == "torn":
         _ioerr_case(ctx, cfg, desc, clock, ref, torn=True)
+        return
+    if kind == "fsize":
+        _fsize_case(ctx, cfg, desc, clock, ref)
         return
     if kind.startswith("staging-off"):
         named = kind.endswith("-named")
@@ -213,6 +217,10 @@ def scn_case(ctx):
         fault = {"kind": fkind, "step": step}
     else:
         fault = {"kind": fkind, "step": None, "fits_k": fits_k, "fits_line": fits_line}
+    if fkind == "raise":
+        # the type of what the stage raises (derived from the fault position: no extra choice)
+        fault["exc"] = RAISE_TYPES[(step if step is not None else fits_line) % len(RAISE_TYPES)]
+        ctx.describe["raised_type"] = fault["exc"]
     ctx.describe.update(where=where, step=step, target=target)
     fr = crashsim.fault_run(cfg, desc["rng_seed"], clock, src, fault, trace_fits=trace_fits, outname=outname, compute_kw=compute_kw)
     rep = fr["report"]
@@ -228,6 +236,8 @@ def scn_case(ctx):
     k = fired["k"]
     in_stage = fired["in_stage"]
     ctx.faults[f"{fkind}"] += 1
+    if fkind == "raise" and fault.get("exc") != "Exception":
+        ctx.faults["raise:" + fault["exc"]] += 1
     ctx.probes[f"fault_{'inside_stage' if in_stage else 'between_stages'}"] += 1
     if "cphotang.py" in fired["site"]:
         ctx.probes["fault_inside_dask_task"] += 1
@@ -367,6 +377,47 @@ def _ioerr_case(ctx, cfg, desc, clock, ref, torn=False):
             + f" in stage {k + 1} of {K} and the run raised: the file left on disk is not the last completed prefix: {diffs[0]}",
             "ioerr:raised",
         )
+
+
+def _fsize_case(ctx, cfg, desc, clock, ref):
+    """The file system stops taking data at byte L of a file (quota / file-size limit / full
+    disk): the write crossing L is cut short by the OS (a short count, no error yet), the next
+    fails with EFBIG.  Whatever the run does — raise, or go on — the output file must be a
+    completed prefix: the last one if it raised, its own table at every boundary it completes."""
+    ch = ctx.ch
+    K = ref["K"]
+    full = len(ref["snaps"][K] or b"") if K else 0
+    if not full:
+        ctx.probes["fault_step_beyond_run"] += 1
+        return
+    L = 1 + (ch.draw(10**6, "fsize_limit_ppm") * (full + 2880)) // 10**6
+    fr = crashsim.fault_run(cfg, desc["rng_seed"], clock, _src(), {"kind": "fsize", "limit": L, "step": None}, outname=ref["outname"], compute_kw=ref["compute_kw"])
+    rep = fr["report"]
+    ctx.steps += rep.get("steps", 0)
+    ctx.log(f"case fsize limit={L} of {full} -> status={rep['status'][:50]} k_final={rep['k_final']} file={'absent' if fr['file'] is None else len(fr['file'])} mismatch={rep.get('boundary_mismatch')}")
+    if L >= full:
+        ctx.probes["fsize_limit_beyond_run"] += 1
+    else:
+        ctx.faults["file_size_limit_short_write_then_efbig"] += 1
+        ctx.nontrivial = True
+    if rep.get("boundary_mismatch"):
+        kk, diff = rep["boundary_mismatch"]
+        ctx.violate("c17.boundary_after_io_error", f"the file system stopped taking data at byte {L} of a file (short write, then EFBIG), the run went on, and after its stage boundary {kk} the file is not the table of the stages completed so far: {diff}", "fsize:continued")
+        return
+    k = rep["k_final"] or 0
+    if rep["status"] == "returned":
+        if L < full:
+            ctx.probes["run_returned_despite_io_error"] += 1
+        diff = crashsim.describe_diff(fr["file"], fr["final"])
+        if diff:
+            ctx.violate("c17.boundary_after_io_error", f"the file system stopped taking data at byte {L} of a file, compute() returned, and the file differs from its final table: {diff}", "fsize:returned")
+        return
+    allowed = [min(K, k), min(K, k + 1)]
+    diffs = [crashsim.describe_diff(fr["file"], ref["snaps"][kk]) for kk in allowed]
+    if all(diffs):
+        ctx.violate("c17.file_after_write_error",
+                    f"the file system stopped taking data at byte {L} of a file (short write, then EFBIG) in stage {k + 1} of {K} and the run raised: the file left on disk is not the last completed prefix: {diffs[0]}",
+                    "fsize:raised")
 
 
 def _retry_case(ctx, cfg, desc, clock, ref):
@@ -589,6 +640,8 @@ def _config_task_body(args):
             cases.append([6, j])
         for i in range(8 if tier == "quick" else 24):  # torn write (half the bytes, then EIO or death) at a seeded write call
             cases.append([8, rnd.draw(5 * max(1, K), "torn_call"), rnd.draw(4, "torn_mode"), rnd.draw(3, "tear"), rnd.draw(64, "sector"), i % 2])
+        for i in range(6 if tier == "quick" else 16):  # the file system stops taking data at byte L (short write, then EFBIG)
+            cases.append([9, rnd.draw(10**6, "fsize_ppm")])
         for i in range(3 if tier == "quick" else 6):  # failed run, then a retry in the same process
             cases.append([7, rnd.draw(10**6, "retry_step"), i % 3, rnd.draw(64, "kill_k"), rnd.draw(14000, "kill_line")])
         for i in range(4 if tier == "quick" else 8):  # concurrent staged runs, seeded interleavings
